@@ -266,7 +266,11 @@ func mergeConfigs(ctx context.Context, src Config, dest *Config) {
 		if srcFieldValue.Kind() == reflect.Map {
 			srcMap, ok := srcFieldValue.Interface().(map[string]any)
 			if !ok {
-				log.Debug().Msg("field value is not `any`, skipping merge")
+				// Typed maps (e.g. replace-type) are inherited as a whole when
+				// the more specific level doesn't set them.
+				if destFieldValue.IsNil() && !srcFieldValue.IsNil() {
+					destFieldValue.Set(srcFieldValue)
+				}
 				continue
 			}
 			destMap, ok := destFieldValue.Interface().(map[string]any)
